@@ -55,15 +55,19 @@ def generate(plan) -> None:
     k["drift"] = 0.0
     k["fault_free"] = r.random() < 0.15
     k["min_gap"] = 0.05
-    zones = sorted(r.sample(["00", "01", "02", "05", "0B"], r.randrange(1, 4)))
+    zones = sorted(r.sample(["00", "01", "02", "05", "0A", "0B"], r.randrange(1, 4)))
     k["zones"] = zones
     k["dhw"] = r.random() < 0.3
     ops = plan.d["ops"]
     if sc == "codec":
-        k["scheds"] = {z: gen_schedule(r, -1) for z in zones}
+        # the validator does not cap the switchpoints of a day: some schedules are long enough for 10-20 fragments
+        n_max = plan.rng("gen/nmax").choice([6, 6, 6, 6, 12, 30, 48])
+        k["n_max"] = n_max
+        k["scheds"] = {z: gen_schedule(r, -1, n_max=n_max) for z in zones}
         if k["dhw"]:
-            k["scheds"]["HW"] = gen_schedule(r, -1, dhw=True)
-        k["v2"] = {z: gen_schedule(r, -1) for z in zones}
+            k["scheds"]["HW"] = gen_schedule(r, -1, dhw=True, n_max=n_max)
+        k["v2"] = {z: gen_schedule(r, -1, n_max=n_max) for z in zones}
+        k["wire_target"] = plan.rng("gen/wt").choice(zones + (["HW", "HW"] if k["dhw"] else []))
         for z in zones:
             for ver in ("v1", "v2") if r.random() < 0.5 else ("v1",):
                 ops.append({"op": "overhear_all", "zone": z, "ver": ver})
@@ -131,6 +135,9 @@ async def make_gateway(ctx, zones, dhw, with_ctl: SimController | None = None):
 async def run_codec(ctx) -> None:
     plan, loop, hub = ctx.plan, ctx.loop, ctx.hub
     k = plan.knob
+    # the codec, not the transmit regulation, is the subject here: a 20-fragment write empties the duty-cycle bucket and the
+    # limiter then holds frames back for longer than the echo timers wait (KF1's mechanism, C08/C11's business)
+    T._DBG_DISABLE_DUTY_CYCLE_LIMIT = True
     zones = k("zones")
     scheds = k("scheds")
     # (a) pure clauses, monitored on the generated schedules
@@ -142,6 +149,11 @@ async def run_codec(ctx) -> None:
         except Exception as err:  # noqa
             ctx.violate("C17", "codec_raised", exc_sig(err), f"schedule for {z}: {type(err).__name__}: {err}")
             continue
+        if back.get("zone_idx") != full["zone_idx"]:
+            ctx.violate("C17", "identity", "zone_idx", f"zone {z}: encode->fragment->decode gives zone_idx {back.get('zone_idx')!r}, "
+                        f"not {full['zone_idx']!r}")
+        if len(frags) >= 10:
+            ctx.probe("schedules_of_10_or_more_fragments")
         if norm(back["schedule"]) != norm(s):
             a, b = back["schedule"], s
             diff = next(((x, y) for dx, dy in zip(a, b) for x, y in zip(dx["switchpoints"], dy["switchpoints"]) if x != y), None)
@@ -228,16 +240,26 @@ async def run_codec(ctx) -> None:
                                    "dhw": {"sensor": "07:045960"} if k("dhw") else None, "app": None}, plan)
     hub.peers.append(ctl)
     gwy1 = await make_gateway(ctx, zones, k("dhw"))
-    z = zones[0]
+    z = k("wire_target", zones[0])
+    if z not in scheds:
+        z = zones[0]
+
+    def ent(g):
+        return g.tcs.dhw if z == "HW" else g.tcs.zone_by_idx[z]
+
     try:
-        await asyncio.wait_for(gwy1.tcs.zone_by_idx[z].set_schedule(scheds[z]), 120)
+        await asyncio.wait_for(ent(gwy1).set_schedule(scheds[z]), 300)
+        # what was written is what the controller now holds for *that* zone / the hot water -- and nothing else has changed
+        if norm(ctl.sched.get(z)) != norm(scheds[z]) or any(kk != z for kk in ctl.sched):
+            ctx.violate("C17", "wire_roundtrip", "stored_elsewhere", f"set_schedule({z}) succeeded; the controller now holds schedules "
+                        f"for {sorted(ctl.sched)} and the one for {z} is {'the one written' if norm(ctl.sched.get(z)) == norm(scheds[z]) else 'not the one written'}")
     except Exception as err:  # noqa
         ctx.violate("C17", "set_schedule_failed", exc_sig(err), f"fault-free set_schedule({z}) raised {type(err).__name__}: {err}")
     await gwy1.stop()
     await asyncio.sleep(0.1)
     gwy2 = await make_gateway(ctx, zones, k("dhw"))
     try:
-        got = await asyncio.wait_for(gwy2.tcs.zone_by_idx[z].get_schedule(force_io=True), 120)
+        got = await asyncio.wait_for(ent(gwy2).get_schedule(force_io=True), 300)
         if norm(got) != norm(scheds[z]):
             a, b = got or [], scheds[z]
             diff = next(((x, y) for dx, dy in zip(a, b) for x, y in zip(dx["switchpoints"], dy["switchpoints"]) if x != y), None)
